@@ -1,32 +1,32 @@
 SPECIFICATION Spec
 CONSTANTS
-  MaxStmts = 2
-  MaxDepth = 3
+  MaxStmts = 3
+  MaxDepth = 2
   MaxUnits = 1
-  MaxVar = 1
+  MaxVar = 30
   UnitKinds <- SubOnly
-  ConKinds <- Empty
+  ConKinds <- AllCons
   SpecKinds <- Empty
-  SimpleV <- StrSplitS
-  DeclV <- StrSplitDecl
+  SimpleV <- Set1
+  DeclV <- Set1
   UseV <- Set1
   FormatV <- Set1
   CompV <- Set1
   TbindV <- Set1
-  NameChoices <- Set1
+  NameChoices <- Set01
   EndForms <- Set02
   LabelStmts = FALSE
   Contains = FALSE
-  PKinds <- KCmt
+  PKinds <- KPar
   MaxEdits = 1
   InsSet <- InsSmall
   MinEdits = 0
   Randomised = FALSE
-  DumpMod = 3
+  DumpMod = 1
   NRepl = 17
   RichOnly = FALSE
   NeedStruct = FALSE
-  MaxRich <- Unlimited
+  MaxRich = 1
   NCmtCls = 8
   NCppForms = 27
   NGarb = 7
